@@ -301,6 +301,10 @@ func H_C03_anyxml_lists() {
 // equal the prefix, start with it, end with it or repeat it
 func H_C03_encode_prefix() {
 	vResetDecOpts()
+	if vChoose(2) == 1 {
+		XmlGoEmptyElemSyntax()
+		defer XmlDefaultEmptyElemSyntax()
+	}
 	p := []string{"_", "a", ""}[vChoose(3)]
 	SetAttrPrefix(p)
 	inner := map[string]interface{}{}
@@ -340,6 +344,9 @@ func H_C03_empty_text() {
 	}
 	inner := map[string]interface{}{"#text": ""}
 	want := map[string]interface{}{}
+	if vChoose(2) == 1 {
+		delete(inner, "#text") // attributes and children only
+	}
 	if vChoose(2) == 1 {
 		v := vNondetString(1, 1, "12")
 		inner["-id"], want["-id"] = v, v
